@@ -94,23 +94,24 @@ T_SuiteIntr2 == /\ tpc = "suite_intr2" /\ Put(<<Ev("SF", suite, 0, "interrupted"
 (* Hypothesis starts the next scenario of this run: a generated one, or (after a failure / error) more generated ones and the
    final replay of the failing one.  setup() raises KeyboardInterrupt when the run has to stop: that ends the whole Hypothesis
    run, whatever was pending. *)
-T_Setup ==
+T_Setup ==                            \* `if engine.has_to_stop: raise KeyboardInterrupt` - the read of the flags ...
   /\ tpc = "setup"
-  /\ IF FixSetup /\ HasToStop
-     THEN /\ tpc' = "run_end" /\ pend' = "ctrlc" /\ UNCHANGED <<q, scen, stepn, scst, scsAfterStop>>
-     ELSE /\ scen' = scen + 1 /\ Put(<<Ev("ScS", suite, suite * 100 + scen + 1, "")>>) /\ stepn' = 0 /\ scst' = "none"
-          /\ tpc' = "step_check" /\ UNCHANGED pend
-          /\ scsAfterStop' = IF stop THEN scsAfterStop + 1 ELSE scsAfterStop
-  /\ UNCHANGED <<suite, nscen, sst, nSeenRun, nSeenSuite, stop, fails, limit, problem, reqAfterStop, stopped>> /\ CUnch /\ NoEmit
+  /\ IF FixSetup /\ HasToStop THEN tpc' = "run_end" /\ pend' = "ctrlc" ELSE tpc' = "setup_put" /\ UNCHANGED pend
+  /\ UNCHANGED <<suite, scen, nscen, stepn, scst, sst, nSeenRun, nSeenSuite, q, stop, fails, limit>> /\ CUnch /\ NoEmit /\ GUnch
+T_SetupPut ==                         \* ... and the announcement are two steps: a stop request may arrive in between
+  /\ tpc = "setup_put"
+  /\ scen' = scen + 1 /\ Put(<<Ev("ScS", suite, suite * 100 + scen + 1, "")>>) /\ stepn' = 0 /\ scst' = "none" /\ tpc' = "step_check"
+  /\ scsAfterStop' = IF stop THEN scsAfterStop + 1 ELSE scsAfterStop
+  /\ UNCHANGED <<suite, nscen, sst, pend, nSeenRun, nSeenSuite, stop, fails, limit, problem, reqAfterStop, stopped>> /\ CUnch /\ NoEmit
 (* Hypothesis abandons / ends the scenario: before its first step, or after any successful step *)
 T_EndScenario ==
   /\ tpc = "step_check" /\ tpc' = "teardown"
   /\ UNCHANGED <<suite, scen, nscen, stepn, scst, sst, pend, nSeenRun, nSeenSuite, q, stop, fails, limit>> /\ CUnch /\ NoEmit /\ GUnch
 T_StepCheck ==
   /\ tpc = "step_check" /\ stepn < StepCount
-  /\ IF HasToStop THEN scst' = "interrupted" /\ pend' = "ctrlc" /\ tpc' = "teardown"
-     ELSE tpc' = "step" /\ UNCHANGED <<scst, pend>>
-  /\ UNCHANGED <<suite, scen, nscen, stepn, sst, nSeenRun, nSeenSuite, q, stop, fails, limit>> /\ CUnch /\ NoEmit /\ GUnch
+  /\ IF HasToStop THEN pend' = "ctrlc" /\ tpc' = "teardown"      \* raised before the step's own try block: the scenario keeps its status
+     ELSE tpc' = "step" /\ UNCHANGED pend
+  /\ UNCHANGED <<suite, scen, nscen, stepn, scst, sst, nSeenRun, nSeenSuite, q, stop, fails, limit>> /\ CUnch /\ NoEmit /\ GUnch
 (* one request + its checks.  A failed check is NEW when it was seen neither in this suite nor in an earlier one (only new
    ones are recorded, counted and raised); NKinds bounds the distinct failures the API can produce. *)
 Fresh == NKinds - nSeenRun - nSeenSuite
@@ -192,11 +193,11 @@ C_EngineFinished ==
 Env_Stop == /\ AllowStop /\ ~stopped /\ cpc \notin {"start", "end"} /\ stop' = TRUE /\ stopped' = TRUE
             /\ NoEmit /\ TUnch /\ CUnch /\ UNCHANGED <<q, fails, limit, problem, reqAfterStop, scsAfterStop>>
 
-Next == \/ P_Start \/ T_SuiteStart \/ T_SuiteCheck \/ T_SuiteIntr1 \/ T_SuiteIntr2 \/ T_Setup \/ T_EndScenario \/ T_StepCheck \/ T_Step \/ T_Teardown \/ T_RunEnd \/ T_SuiteFinish \/ T_Exit
+Next == \/ P_Start \/ T_SuiteStart \/ T_SuiteCheck \/ T_SuiteIntr1 \/ T_SuiteIntr2 \/ T_Setup \/ T_SetupPut \/ T_EndScenario \/ T_StepCheck \/ T_Step \/ T_Teardown \/ T_RunEnd \/ T_SuiteFinish \/ T_Exit
         \/ C_Get \/ C_Yield \/ C_Timeout \/ C_Alive \/ C_CtrlC \/ C_Join \/ C_Drain \/ C_PhaseFinished \/ C_EngineFinished \/ Env_Stop
 Spec == Init /\ [][Next]_vars
 MainNext == P_Start \/ C_Get \/ C_Yield \/ C_Timeout \/ C_Alive \/ C_Join \/ C_Drain \/ C_PhaseFinished \/ C_EngineFinished
-ThreadNext == T_SuiteStart \/ T_SuiteCheck \/ T_SuiteIntr1 \/ T_SuiteIntr2 \/ T_Setup \/ T_EndScenario \/ T_StepCheck \/ T_Step \/ T_Teardown \/ T_RunEnd \/ T_SuiteFinish \/ T_Exit
+ThreadNext == T_SuiteStart \/ T_SuiteCheck \/ T_SuiteIntr1 \/ T_SuiteIntr2 \/ T_Setup \/ T_SetupPut \/ T_EndScenario \/ T_StepCheck \/ T_Step \/ T_Teardown \/ T_RunEnd \/ T_SuiteFinish \/ T_Exit
 FairSpec == Spec /\ WF_vars(MainNext) /\ WF_vars(ThreadNext)
 
 Done == cpc = "end"
